@@ -1,12 +1,11 @@
 package engine
 
 import (
+	"math/big"
 	"reflect"
 
 	"github.com/kaptinlin/gozod/core"
 	"github.com/kaptinlin/gozod/internal/issues"
-	"github.com/kaptinlin/gozod/pkg/mapx"
-	"github.com/kaptinlin/gozod/pkg/reflectx"
 )
 
 // ----------------------------------------------------------------------------
@@ -61,7 +60,7 @@ func processModifiersCore[T any](
 
 	// Prefault/PrefaultFunc — preprocessing, continues normal parsing.
 	if internals.PrefaultValue != nil {
-		return internals.PrefaultValue, false, nil
+		return cloneDefaultValue(internals.PrefaultValue), false, nil
 	}
 	if internals.PrefaultFunc != nil {
 		return internals.PrefaultFunc(), false, nil
@@ -139,33 +138,78 @@ func resolveDefault(internals *core.ZodTypeInternals) any {
 	return nil
 }
 
-// cloneDefaultValue creates a shallow copy of map/slice default values.
+// cloneDefaultValue returns a deep copy of a default or prefault value: nested maps, slices,
+// arrays, pointers and interface values are copied too, so a caller that mutates a value
+// returned by Parse can never change what a later Parse returns.
 func cloneDefaultValue(v any) any {
 	if v == nil {
 		return nil
 	}
+	return deepCloneValue(reflect.ValueOf(v), 0).Interface()
+}
 
-	if reflectx.IsSlice(v) {
-		rv := reflect.ValueOf(v)
+// maxCloneDepth bounds the recursion of deepCloneValue (self-referential values).
+const maxCloneDepth = 64
+
+// deepCloneValue copies the reference-typed parts of rv recursively. Struct values are
+// copied field by field where the fields can be set; funcs and channels stay shared.
+func deepCloneValue(rv reflect.Value, depth int) reflect.Value {
+	if !rv.IsValid() || depth > maxCloneDepth {
+		return rv
+	}
+	switch rv.Kind() {
+	case reflect.Map:
+		if rv.IsNil() {
+			return rv
+		}
+		m := reflect.MakeMapWithSize(rv.Type(), rv.Len())
+		iter := rv.MapRange()
+		for iter.Next() {
+			m.SetMapIndex(iter.Key(), deepCloneValue(iter.Value(), depth+1))
+		}
+		return m
+	case reflect.Slice:
+		if rv.IsNil() {
+			return rv
+		}
 		s := reflect.MakeSlice(rv.Type(), rv.Len(), rv.Cap())
-		reflect.Copy(s, rv)
-		return s.Interface()
-	}
-
-	if reflectx.IsMap(v) {
-		if m, ok := v.(map[string]any); ok {
-			return mapx.Copy(m)
+		for i := range rv.Len() {
+			s.Index(i).Set(deepCloneValue(rv.Index(i), depth+1))
 		}
-		rv := reflect.ValueOf(v)
-		if rv.Kind() == reflect.Map {
-			m := reflect.MakeMap(rv.Type())
-			iter := rv.MapRange()
-			for iter.Next() {
-				m.SetMapIndex(iter.Key(), iter.Value())
+		return s
+	case reflect.Array:
+		a := reflect.New(rv.Type()).Elem()
+		for i := range rv.Len() {
+			a.Index(i).Set(deepCloneValue(rv.Index(i), depth+1))
+		}
+		return a
+	case reflect.Interface:
+		if rv.IsNil() {
+			return rv
+		}
+		out := reflect.New(rv.Type()).Elem()
+		out.Set(deepCloneValue(rv.Elem(), depth+1))
+		return out
+	case reflect.Pointer:
+		if rv.IsNil() {
+			return rv
+		}
+		if b, ok := rv.Interface().(*big.Int); ok {
+			return reflect.ValueOf(new(big.Int).Set(b))
+		}
+		p := reflect.New(rv.Type().Elem())
+		p.Elem().Set(deepCloneValue(rv.Elem(), depth+1))
+		return p
+	case reflect.Struct:
+		out := reflect.New(rv.Type()).Elem()
+		out.Set(rv)
+		for i := range rv.NumField() {
+			if f := out.Field(i); f.CanSet() {
+				f.Set(deepCloneValue(rv.Field(i), depth+1))
 			}
-			return m.Interface()
 		}
+		return out
+	default:
+		return rv
 	}
-
-	return v
 }
